@@ -290,8 +290,13 @@ def build_secret_body(alg, created, params, secret, curve=None, kdf=None, protec
         return pub + b'\x00' + mat + (sum(mat) & 0xFFFF).to_bytes(2, 'big')
     usage = protect['usage']
     sym = protect['sym']
-    spec = protect['spec']
     iv = protect['iv']
+    if usage == 'legacy':
+        # RFC 4880 5.5.3: any other usage octet is itself the cipher id; the key is the MD5 of the passphrase (a simple S2K), a 16-bit checksum follows
+        key = _s2k.derive(_s2k.Spec('simple', 1, b'', None), protect['passphrase'], _sym.KEYLEN[sym])
+        pt = mat + (sum(mat) & 0xFFFF).to_bytes(2, 'big')
+        return pub + bytes([sym]) + iv + _sym.cfb_encrypt(sym, key, iv, pt)
+    spec = protect['spec']
     key = _s2k.derive(spec, protect['passphrase'], _sym.KEYLEN[sym])
     if usage == 254:
         pt = mat + hashlib.sha1(mat).digest()
